@@ -453,7 +453,7 @@ def run(ctx):
     sgraphs = ["EX_S1_flow.cfg", "EX_S3_flow.cfg"] + ["EX_S2_%s.cfg" % t for t in types]
     if not quick:
       mcs += [("MCPortView", "MC_P2w.cfg", PORT_ACTIONS), ("MCPortView", "MC_hist4.cfg", PORT_ACTIONS),
-              ("MCPortView", "MC_hist5.cfg", PORT_ACTIONS), ("MCStatsAgg", "MC_S3w_flow.cfg", STAT_ACTIONS)]
+              ("MCStatsAgg", "MC_S3w_flow.cfg", STAT_ACTIONS)]
       pgraphs += [("EX_edges_P3s.cfg", 3), ("EX_edges_P4.cfg", 4)]
       sgraphs += ["EX_S1_%s.cfg" % t for t in others] + ["EX_S3_%s.cfg" % t for t in others]
     for cfg, _ in pgraphs:
@@ -475,7 +475,7 @@ def run(ctx):
       ctx.add_model("PortView " + cfg, r)
       prep_ports(walks)
       ctx.notes["graph " + cfg] = info
-      ok = replay_variants(ctx, PORTS, walks, dict(NP=np_), cfg, all_variants=not quick and np_ < 4,
+      ok = replay_variants(ctx, PORTS, walks, dict(NP=np_), cfg, all_variants=not quick and np_ < 3,
                            pick=lambda b: any("cur" in st["exp"] for st in b))
       okp = okp or ok
     for cfg in sgraphs:
@@ -508,7 +508,7 @@ def run(ctx):
     jobs.close()
 
   # 4. code -> spec: random drivers on the real Connection, traces validated by TLC
-  ntr = 120 if quick else 2500
+  ntr = 120 if quick else 1500
   validate_traces(ctx, "TracePortView", "TracePorts.cfg", "props.C17:drive_ports",
                   [(ctx.seed * 100003 + i, 12 + (i % 19)) for i in range(ntr)],
                   corrupt_port_trace, "ports", describe_port_event)
